@@ -21,6 +21,7 @@ import (
 // sizes up to which doing nothing is the right answer, by function; default 0
 var trivialSize = map[string]int{
 	"heapq.Sort":    1,
+	"heapq.Reorder": 1, // a heap of one element is in order under every comparison
 	"slice.Rotate":  1,
 	"slice.Reverse": 1,
 }
